@@ -274,7 +274,7 @@ fn main() {
                 if want_code {
                     println!("CODETEXT {}", hex(&o));
                 }
-                if want_strip {
+                if want_strip || want_code {
                     println!("CODEVALID {}", if syn::parse_str::<syn::File>(&o).is_ok() { 1 } else { 0 });
                 }
                 match logos_codegen::verif::take() {
